@@ -153,6 +153,9 @@ func cmdBaseline(args []string) int {
 			st := "unproved"
 			if r.Status == "proved" && r.Secs <= *limit {
 				st = "proved"
+			} else if r.Status == "proved" {
+				// discharged, but too slow for the quick tier: claimed by the thorough tier only
+				st = "proved-slow"
 			}
 			if st != "proved" {
 				fmt.Printf("   %-8s %s (%.1fs) %s\n", r.Status, r.Name, r.Secs, r.FailSite)
@@ -243,7 +246,7 @@ func cmdCheck(args []string) int {
 	want := map[string]BaselineEntry{}
 	funcs := map[string]bool{}
 	for _, e := range base.Obligations {
-		if hasTag(e.Tags, prop) && (e.Status == "proved" || knownByObl[e.Name].Obligation != "") {
+		if hasTag(e.Tags, prop) && (e.Status == "proved" || (e.Status == "proved-slow" && *tier == "thorough") || knownByObl[e.Name].Obligation != "") {
 			want[e.Name] = e
 			funcs[e.Func] = true
 		}
@@ -282,6 +285,9 @@ func cmdCheck(args []string) int {
 		// a failure is only believed if it reproduces on a second, independent run of the function
 		failed := false
 		for _, r := range rep.Results {
+			if _, isKnown := knownByObl[r.Name]; isKnown {
+				continue // a listed finding is expected to fail: no confirmation run for it
+			}
 			if r.Status != "proved" {
 				failed = true
 			}
@@ -295,6 +301,9 @@ func cmdCheck(args []string) int {
 					return true
 				}
 				for _, r := range rep.Results {
+					if _, isKnown := knownByObl[r.Name]; isKnown {
+						continue
+					}
 					if r.Name == o.Name && r.Status != "proved" {
 						return true
 					}
@@ -455,8 +464,15 @@ func cmdCheck(args []string) int {
 	var notClaimed []string
 	for _, e := range base.Obligations {
 		if e.Status != "proved" && hasTag(e.Tags, prop) {
+			if e.Status == "proved-slow" && *tier == "thorough" {
+				continue
+			}
 			if _, kf := knownByObl[e.Name]; !kf {
-				notClaimed = append(notClaimed, e.Name+" :: "+e.Clause)
+				note := ""
+				if e.Status == "proved-slow" {
+					note = " [discharged by the thorough tier only]"
+				}
+				notClaimed = append(notClaimed, e.Name+note+" :: "+e.Clause)
 			}
 		}
 	}
